@@ -190,6 +190,9 @@ MERGE = "for enum in merge:\n    for enumentry in enum:\n        %s[enumentry.na
 
 # class -> (fields on every normal return, conditions under which the constructor refuses, loops, properties)
 SPECS = {
+    # the region substream: reports positions of the ENCLOSING stream by adding exactly the offset it was created with (C08); the
+    # contracts of tell/seek/from_reading speak about this field
+    'BytesIOWithOffsets': (dict(parent_stream='parent_stream', parent_stream_offset='offset'), [], [], ('C08', 'C14', 'C17')),
     'Construct': (dict(COMMON, flagbuildnone='False'), [], [], ('C03',)),
     'Subconstruct': (SUB, SUBGUARD, [], ('C03',)),
     'Bytes': (dict(COMMON, flagbuildnone='False', length='length'), [], [], ('C03',)),
